@@ -6,6 +6,16 @@ ALL = ["C%02d" % i for i in range(1, 21)]
 
 # id -> dict(level, text, note, technique, design, engine, thorough=True)
 CHECKS = {
+ "C04": dict(level="exploration",
+  text="Exhaustive matrix signature algorithm (10 supported + RSA-PSS + Ed25519 + unknown) x signer (8 kinds incl. sibling CA with identical DN, the end-entity's own key, CA without cRLSign) x AKI form (6) x intake path (first load, refresh) x good/bad signature, plus EVERY single-bit flip of tbsCertList|signatureAlgorithm|signatureValue of an EC and an RSA seed, each driven through the real Repository (AddCRL / UpdateCRL, strict lookup as the in-force probe). Oracle (soundness direction): in force => authentic by construction.",
+  note="Entitlement reference is computed from how each case was built, independent of the implementation; completeness (authentic => accepted) is counted, not judged.",
+  technique="bounded-exhaustive input enumeration (signer/algorithm/AKI matrix + complete single-bit-flip neighbourhood) on the real intake path",
+  design="DESIGN.md §4 C04", engine="shape enumerator + 1-point neighbourhood"),
+ "C05": dict(level="exploration",
+  text="Exhaustive matrix signer (8 kinds) x serial (this/other) x status (good/revoked/unknown) plus OCSP error statuses plus EVERY single-bit flip of authentic good and revoked responses, each through the real OCSPRevocationChecker with aia_strict on; two-step history per case (call, responder down, call) observes both 'decided the verdict' and 'was cached'. Oracle: used or cached => authentic.",
+  note="Authenticity by construction; for bit-flipped responses by an independent x/crypto/ocsp verification against the issuer for this serial.",
+  technique="bounded-exhaustive input enumeration (signer/serial/status matrix + complete single-bit-flip neighbourhood) with a 2-event history per case",
+  design="DESIGN.md §4 C05", engine="shape enumerator + 1-point neighbourhood"),
  "C06": dict(level="exploration",
   text="Bounded-exhaustive shape enumeration of generated CRLs through the real StreamingCRLFileReader with a recording processor, compared field by field (callbacks, order, digest, signature bits, extensions) with a whole-document encoding/asn1 reference decoder; full product of the core shape dimensions, one-at-a-time crossing of the rest, and an alignment sweep that moves every element boundary across every offset of the 4 KiB buffered-reader window (and PEM line / base64 chunk windows). Right level: the property quantifies over inputs; the space of shapes within the bounds is enumerated completely, not sampled.",
   note="Reference decoder = encoding/asn1 + encoding/pem (trusted). Shapes outside the stated alphabet (e.g. 4-length-byte documents in quick) are not covered.",
